@@ -527,10 +527,103 @@ func runC03Gate(c *Case, out func(string)) {
 		}
 		return r
 	}
-	ngates, nheld := 0, 0
+	ngates, nheld, npartial, nrogate := 0, 0, 0, 0
 	for i := 0; i < len(c.Lines); i++ {
 		l := c.Lines[i]
 		switch l[0] {
+		case "rogate":
+			// a read-only transaction is open while a read-write transaction tries to commit:
+			// the writer must wait for the reader (transaction lock), so the reader's gets and
+			// its scan all show the state before the commit
+			n, _ := strconv.Atoi(l[1])
+			ops := parseBops(c, i, n)
+			i += n
+			eff := bufferOps(ops)
+			before := liveOf(ref)
+			after := applyTo(before, eff)
+			nrogate++
+			ro, err := e.BeginTransaction(true)
+			if err != nil {
+				out("IMPL-ERROR begin " + err.Error())
+				return
+			}
+			seen := map[string][]byte{}
+			half := len(eff) / 2
+			for _, o := range eff[:half] {
+				if v, err := ro.Get(o.k); err == nil {
+					seen[string(o.k)] = v
+				}
+			}
+			wdone := make(chan error, 1)
+			go func() {
+				tx, err := e.BeginTransaction(false)
+				if err != nil {
+					wdone <- err
+					return
+				}
+				for _, o := range ops {
+					if o.del {
+						tx.Delete(o.k)
+					} else {
+						tx.Put(o.k, o.v)
+					}
+				}
+				wdone <- tx.Commit()
+			}()
+			early := false
+			select {
+			case err := <-wdone:
+				early = true
+				wdone <- err
+			case <-time.After(30 * time.Millisecond):
+			}
+			for _, o := range eff[half:] {
+				if v, err := ro.Get(o.k); err == nil {
+					seen[string(o.k)] = v
+				}
+			}
+			scan := map[string][]byte{}
+			it := ro.NewIterator()
+			for it.SeekToFirst(); it.Valid(); it.Next() {
+				if !it.IsTombstone() {
+					scan[string(it.Key())] = clone(it.Value())
+				}
+			}
+			ro.Commit()
+			for _, o := range eff {
+				g, gp := seen[string(o.k)]
+				b, bp := before[string(o.k)]
+				if gp != bp || (gp && !bytes.Equal(g, b)) {
+					fail(fmt.Sprintf("a read-only transaction that began before a commit read %s=%s, the value before the commit is %s (commit finished early: %v)", render(o.k), render(g), render(b), early))
+				}
+			}
+			if !sameState(scan, before) {
+				fail(fmt.Sprintf("the scan of a read-only transaction that began before a commit does not show the state before the commit (commit finished early: %v)", early))
+			}
+			if early {
+				fail("a read-write transaction committed while a read-only transaction was open")
+			}
+			select {
+			case err := <-wdone:
+				if err != nil {
+					fail("commit failed: " + err.Error())
+				}
+			case <-time.After(20 * time.Second):
+				fail("the commit did not finish after the read-only transaction ended")
+				return
+			}
+			for k := range ref {
+				if _, ok := after[k]; !ok {
+					delete(ref, k)
+				}
+			}
+			for k, v := range after {
+				ref[k] = v
+			}
+			got, _, err := fullScan(e)
+			if err != nil || !sameState(got, after) {
+				fail("after the commit a scan does not show all of it")
+			}
 		case "put":
 			k, v := tok(l[1]), tok(l[2])
 			if e.Put(k, v) == nil {
@@ -622,8 +715,29 @@ func runC03Gate(c *Case, out func(string)) {
 						got[string(itOld.Key())] = clone(itOld.Value())
 					}
 				}
+				// A scan that is already running while the batch is inserted is not an observer
+				// of C03 (DESIGN/coordinator decision: it is constrained by C05 only). What it
+				// shows is recorded as a note: the memtable snapshot (MemTable.nextSeqNum
+				// alternates between max+1 and max; 0 on an empty table = unfiltered) may let it
+				// see the entries inserted so far. Hard check: per key it shows the value before
+				// or after the batch, nothing else.
 				if !sameState(got, before) && !sameState(got, after) {
-					fail(fmt.Sprintf("a scan through an iterator created before the batch, made while %d of its %d entries were inserted, shows part of the batch: %s", hit-1, len(eff), describe(got)))
+					out(fmt.Sprintf("NOTE running scan (iterator created before the batch) sees %d of %d inserted entries of the batch in flight: %s", hit-1, len(eff), describe(got)))
+					npartial++
+				}
+				for k, v := range got {
+					b, bp := before[k]
+					a, ap := after[k]
+					if !(bp && bytes.Equal(v, b)) && !(ap && bytes.Equal(v, a)) {
+						fail(fmt.Sprintf("a running scan shows %s=%s, which is neither the value before nor after the batch", render([]byte(k)), render(v)))
+					}
+				}
+				for k := range before {
+					if _, inGot := got[k]; !inGot {
+						if _, inAfter := after[k]; inAfter {
+							fail(fmt.Sprintf("a running scan misses key %s, which exists before and after the batch", render([]byte(k))))
+						}
+					}
 				}
 				// (2) readers started while the batch is in flight
 				type res struct {
@@ -731,10 +845,10 @@ func runC03Gate(c *Case, out func(string)) {
 		out("ORACLE ok")
 	}
 	nt := 0
-	if nheld > 0 {
+	if nheld > 0 || nrogate > 0 {
 		nt = 1
 	}
-	out(fmt.Sprintf("META mode=gate gates=%d held=%d nontrivial=%d", ngates, nheld, nt))
+	out(fmt.Sprintf("META mode=gate gates=%d held=%d rogates=%d running_scans_partial=%d nontrivial=%d", ngates, nheld, nrogate, npartial, nt))
 }
 
 // ---------------------------------------------------------------------------------------
@@ -797,6 +911,18 @@ func concCheck(o *concObs, states [][]int, batches []concBatch) bool {
 	}
 	okAt := func(n, i int) bool { return states[n][o.keys[i]] == o.stamps[i] }
 	switch o.mode {
+	case "each":
+		// every key on its own: its value is the one after some prefix inside the window
+		for i := range o.keys {
+			found := false
+			for n := o.lo; n <= hi && !found; n++ {
+				found = okAt(n, i)
+			}
+			if !found {
+				return false
+			}
+		}
+		return true
 	case "section":
 		for n := o.lo; n <= hi; n++ {
 			all := true
@@ -862,6 +988,7 @@ func runC03Conc(c *Case, out func(string)) {
 	nreaders, _ := strconv.Atoi(hdrVal(c.Hdr, "readers", "4"))
 	rseed, _ := strconv.ParseInt(hdrVal(c.Hdr, "rseed", "1"), 10, 64)
 	sample := parseInts(hdrVal(c.Hdr, "sample", "0,1"))
+	txOnly := hdrVal(c.Hdr, "writers", "mixed") == "tx"
 	var batches []concBatch
 	for _, l := range c.Lines {
 		if l[0] == "w" && len(l) >= 4 {
@@ -935,9 +1062,10 @@ func runC03Conc(c *Case, out func(string)) {
 				default:
 				}
 				o := &concObs{}
-				switch rng.Intn(5) {
-				case 0: // plain iterator scan
-					o.mode, o.what = "section", "scan"
+				switch []int{0, 1, 1, 2, 2, 3, 4}[rng.Intn(7)] {
+				case 0: // plain iterator scan: not isolated from a batch in flight (C05 only);
+					// C03 asks that everything acknowledged before it began is there
+					o.mode, o.what = "each", "scan"
 					o.lo = int(acked.Load())
 					it, err := e.GetIterator()
 					if err != nil {
@@ -958,8 +1086,12 @@ func runC03Conc(c *Case, out func(string)) {
 						return it.Key(), it.Value(), it.IsTombstone(), true
 					})
 					o.hi = int(started.Load())
-				case 1: // scan inside a read-only transaction
-					o.mode, o.what = "section", "roscan"
+				case 1: // scan inside a read-only transaction: against transactional writers it
+					// must show one committed state; a direct ApplyBatch is not a transaction
+					o.mode, o.what = "each", "roscan"
+					if txOnly {
+						o.mode = "section"
+					}
 					o.lo = int(acked.Load())
 					tx, err := e.BeginTransaction(true)
 					if err != nil {
@@ -1039,6 +1171,9 @@ func runC03Conc(c *Case, out func(string)) {
 	for b, bt := range batches {
 		started.Store(int64(len(hist) + 1))
 		var err error
+		if txOnly {
+			bt.via = "tx"
+		}
 		if bt.via == "tx" {
 			var tx interface {
 				Put(k, v []byte) error
@@ -1570,6 +1705,17 @@ func genC03Gate(w *bufio.Writer, r *rand.Rand, id string) {
 		if r.Intn(3) == 0 {
 			fmt.Fprintf(w, "put %s %s\n", mkTok(genKey(r, nkeys)), mkTok([]byte("between")))
 		}
+		if r.Intn(2) == 0 {
+			m := 2 + r.Intn(4)
+			fmt.Fprintf(w, "rogate %d\n", m)
+			for j := 0; j < m; j++ {
+				if r.Intn(5) == 0 {
+					fmt.Fprintf(w, "d %s\n", mkTok(genKey(r, nkeys)))
+				} else {
+					fmt.Fprintf(w, "p %s %s\n", mkTok(genKey(r, nkeys)), mkTok([]byte(fmt.Sprintf("r%d-%d", g, j))))
+				}
+			}
+		}
 	}
 	fmt.Fprintf(w, "end\n")
 }
@@ -1591,8 +1737,9 @@ func genC03Conc(w *bufio.Writer, r *rand.Rand, id string, tier string) {
 	if tier == "thorough" {
 		rounds = 80
 	}
-	fmt.Fprintf(w, "case %s mode=conc nkeys=%d vsize=%d memsize=%d yield=%d rseed=%d rounds=%d readers=4 sample=%s\n",
-		id, nkeys, vsize, memsize, 1+r.Intn(1<<30), r.Intn(1<<30), rounds, strings.Join(ss, ","))
+	writers := []string{"tx", "tx", "mixed"}[r.Intn(3)]
+	fmt.Fprintf(w, "case %s mode=conc writers=%s nkeys=%d vsize=%d memsize=%d yield=%d rseed=%d rounds=%d readers=4 sample=%s\n",
+		id, writers, nkeys, vsize, memsize, 1+r.Intn(1<<30), r.Intn(1<<30), rounds, strings.Join(ss, ","))
 	for b := 0; b < nb; b++ {
 		sz := 2 + r.Intn(min(nkeys, 299)-1)
 		if r.Intn(3) == 0 {
@@ -1637,13 +1784,32 @@ func genC03Crash(w *bufio.Writer, r *rand.Rand, id string) {
 	fmt.Fprintf(w, "case %s mode=crash memsize=%d sync=%s\n", id, []int{1000, 100000, 1 << 22}[r.Intn(3)], mode)
 	nkeys := 3 + r.Intn(4)
 	nw := 0
+	// the log of one case stays below ~200 KB (the extracted model walks it with non-tail-recursive
+	// list functions): one batch of three 22-30 KB values (beyond the 64 KB log buffer) and at
+	// most one more large value
+	bigLeft := 1
 	bigVal := func() string {
-		return fmt.Sprintf("@%d:%d", 20000+r.Intn(50000), r.Intn(1<<20))
+		return fmt.Sprintf("@%d:%d", 22000+r.Intn(8000), r.Intn(1<<20))
 	}
-	for i := 2 + r.Intn(5); i > 0; i-- {
+	smallVal := func() string {
+		c03BigOK = false
+		defer func() { c03BigOK = true }()
+		return genC03Val(r)
+	}
+	bigAt := r.Intn(3) // the large batch is not always the last write
+	emitBig := func() {
+		fmt.Fprintf(w, "%s 3\np %s %s\np %s %s\np %s %s\n", []string{"commit", "commit", "batch"}[r.Intn(3)],
+			mkTok([]byte("a")), bigVal(), mkTok([]byte("b")), bigVal(), mkTok([]byte("zz")), bigVal())
+		nw++
+	}
+	nops := 2 + r.Intn(5)
+	for i := 0; i < nops; i++ {
+		if i == bigAt && bigAt < 2 {
+			emitBig()
+		}
 		switch pick(r, 3, 1, 5, 5, 1) {
 		case 0:
-			fmt.Fprintf(w, "put %s %s\n", mkTok(genKey(r, nkeys)), genC03Val(r))
+			fmt.Fprintf(w, "put %s %s\n", mkTok(genKey(r, nkeys)), smallVal())
 			nw++
 		case 1:
 			fmt.Fprintf(w, "del %s\n", mkTok(genKey(r, nkeys)))
@@ -1654,10 +1820,11 @@ func genC03Crash(w *bufio.Writer, r *rand.Rand, id string) {
 			for j := 0; j < n; j++ {
 				if r.Intn(6) == 0 {
 					fmt.Fprintf(w, "d %s\n", mkTok(genKey(r, nkeys)))
-				} else if r.Intn(2) == 0 {
+				} else if bigLeft > 0 && r.Intn(4) == 0 {
+					bigLeft--
 					fmt.Fprintf(w, "p %s %s\n", mkTok(genKey(r, nkeys)), bigVal())
 				} else {
-					fmt.Fprintf(w, "p %s %s\n", mkTok(genKey(r, nkeys)), genC03Val(r))
+					fmt.Fprintf(w, "p %s %s\n", mkTok(genKey(r, nkeys)), smallVal())
 				}
 			}
 			nw++
@@ -1665,9 +1832,9 @@ func genC03Crash(w *bufio.Writer, r *rand.Rand, id string) {
 			fmt.Fprintf(w, "flush\n")
 		}
 	}
-	// one batch that certainly exceeds the log buffer
-	fmt.Fprintf(w, "commit 3\np %s %s\np %s %s\np %s %s\n", mkTok([]byte("a")), bigVal(), mkTok([]byte("b")), bigVal(), mkTok([]byte("zz")), bigVal())
-	nw++
+	if bigAt >= 2 {
+		emitBig()
+	}
 	fmt.Fprintf(w, "crash none 0\n")
 	for d := 0; d < 7; d++ {
 		site := c03CrashSites[r.Intn(len(c03CrashSites))]
